@@ -6,6 +6,7 @@ import (
 	"fmt"
 	"go/constant"
 	"go/token"
+	"go/types"
 	"sort"
 	"strings"
 
@@ -391,25 +392,143 @@ func (m *Model) checkBlockStmt(s *Sink, rule string) {
 			}
 		}
 	}
-	for _, name := range []string{"hasBreakStmt", "hasContinueStmt"} {
-		cs := callsTo(fn, "evaluator", name)
-		key := fmt.Sprintf("%s|stops at the first %s after appending it", fk, strings.TrimSuffix(strings.TrimPrefix(name, "has"), "Stmt"))
-		ok := false
-		for _, c := range cs {
-			leaves := false
-			for _, t := range successTargets(c) {
-				if !li.body[t] {
-					leaves = true
-				}
-			}
-			if leaves && app != nil && ctx.instrDominates(app, c) {
-				ok = true
+	_ = ctx
+	_ = app
+	// decided by evaluating evalBlockStmt on blocks of three statements whose results are given: a plain value, then a
+	// carrier of a control marker (the marker itself, or a block / nested block containing it), then another value.
+	// Expected: the third statement is not evaluated, and the result holds the first two results in order.
+	mkObj := func(name string) *iStruct {
+		if nt := m.namedType("object", name); nt != nil {
+			return &iStruct{typ: nt, fields: map[int]any{}}
+		}
+		return nil
+	}
+	mkBlock := func(elems ...any) *iStruct {
+		b := mkObj("Block")
+		if b == nil {
+			return nil
+		}
+		st := b.typ.Underlying().(*types.Struct)
+		for i := 0; i < st.NumFields(); i++ {
+			if st.Field(i).Name() == "Elements" {
+				b.fields[i] = iSlice{&iArr{elems: elems}, 0, len(elems)}
 			}
 		}
-		if ok {
-			s.OK(rule, key, m.Pos(fn.Pos()), "the statement's result is appended before the test, whose true edge leaves the loop: the rest of the pass is skipped")
-		} else {
-			s.Violation(rule, key, m.Pos(fn.Pos()), "evalBlockStmt does not stop after a statement that yields a %s object (or drops that statement's output)", strings.TrimPrefix(name, "has"))
+		return b
+	}
+	blockStmtT := m.namedType("ast", "BlockStmt")
+	htmlStmtT := m.namedType("ast", "HTMLStmt")
+	// every struct type of package ast whose pointer is an ast.Statement
+	var stmtTypes []*types.Named
+	if ap := m.ByPath[fullPkg("ast")]; ap != nil {
+		if so, ok := ap.Types.Scope().Lookup("Statement").(*types.TypeName); ok {
+			if iface, isI := so.Type().Underlying().(*types.Interface); isI {
+				for _, n := range ap.Types.Scope().Names() {
+					if tn, isTN := ap.Types.Scope().Lookup(n).(*types.TypeName); isTN {
+						if nt, isNamed := tn.Type().(*types.Named); isNamed {
+							if _, isSt := nt.Underlying().(*types.Struct); isSt && types.Implements(types.NewPointer(nt), iface) {
+								stmtTypes = append(stmtTypes, nt)
+							}
+						}
+					}
+				}
+			}
+		}
+	}
+	for _, marker := range []string{"Break", "Continue"} {
+		key := fmt.Sprintf("%s|stops at the first %s after appending it", fk, marker)
+		type scen struct {
+			name    string
+			carrier func() any
+		}
+		scens := []scen{
+			{"the marker itself", func() any { return mkObj(marker) }},
+			{"a block containing the marker", func() any { return mkBlock(mkObj("HTML"), mkObj(marker)) }},
+			{"a block inside a block containing the marker", func() any { return mkBlock(mkBlock(mkObj(marker)), mkObj("HTML")) }},
+		}
+		bad, undecided := "", ""
+		for _, sc := range scens {
+			if blockStmtT == nil || htmlStmtT == nil || len(stmtTypes) < 5 || mkObj(marker) == nil || mkObj("HTML") == nil || mkObj("Block") == nil {
+				undecided = "object.Block / object." + marker + " / ast.BlockStmt not found"
+				break
+			}
+			// the statements are abstract AST nodes; the one whose result carries the marker is tried with every
+			// statement type (stopping must not depend on what kind of statement produced the marker)
+			for _, stmtType := range stmtTypes {
+				if bad != "" || undecided != "" {
+					break
+				}
+				mkStmt := func(nt *types.Named) *iStruct { return &iStruct{typ: nt, fields: map[int]any{}} }
+				s1, s2, s3 := mkStmt(htmlStmtT), mkStmt(stmtType), mkStmt(htmlStmtT)
+				stmts := []any{s1, s2, s3}
+				first, carrier, third := any(mkObj("HTML")), sc.carrier(), any(mkObj("HTML"))
+				results := map[*iStruct]any{s1: first, s2: carrier, s3: third}
+				scName := sc.name + " produced by a " + stmtType.Obj().Name()
+				blk := &iStruct{typ: blockStmtT, fields: map[int]any{}}
+				bst := blockStmtT.Underlying().(*types.Struct)
+				for i := 0; i < bst.NumFields(); i++ {
+					if bst.Field(i).Name() == "Statements" {
+						blk.fields[i] = iSlice{&iArr{elems: stmts}, 0, len(stmts)}
+					}
+				}
+				var evaluated []string
+				ip := &Interp{m: m}
+				ip.call = func(c *ssa.Call, args []any) (any, bool) {
+					if isEvalCall(m, c) && len(args) >= 2 {
+						if o, ok := args[1].(*iStruct); ok {
+							evaluated = append(evaluated, o.typ.Obj().Name())
+							return results[o], true
+						}
+						return nil, true
+					}
+					return nil, false
+				}
+				args := make([]any, len(fn.Params))
+				args[0] = iObj{"evaluator"}
+				if len(args) > 1 {
+					args[1] = blk
+				}
+				if len(args) > 2 {
+					args[2] = iObj{"env"}
+				}
+				res, known := ip.Run(fn, args)
+				if ip.stuck != "" {
+					undecided = scName + ": " + ip.stuck
+					break
+				}
+				for _, l := range ip.lost {
+					undecided = scName + ": " + fnKey(l) + " could not be evaluated"
+				}
+				if undecided != "" {
+					break
+				}
+				if len(evaluated) != 2 {
+					bad = fmt.Sprintf("with %s as the second statement's result the block evaluates %d of its 3 statements (expected 2: the rest of the pass is skipped)", scName, len(evaluated))
+					break
+				}
+				rb, isB := res.(*iStruct)
+				okRes := known && isB && rb.typ.Obj().Name() == "Block"
+				if okRes {
+					okRes = false
+					for _, fv := range rb.fields {
+						if sl, isSl := fv.(iSlice); isSl && sl.high-sl.lo == 2 && sl.arr.elems[sl.lo] == first && sl.arr.elems[sl.lo+1] == carrier {
+							okRes = true
+						}
+					}
+				}
+				if !okRes {
+					bad = fmt.Sprintf("with %s as the second statement's result the returned block does not hold exactly the first two results (the statement carrying the marker is dropped, or more is kept)", scName)
+					break
+				}
+			}
+		}
+		switch {
+		case undecided != "":
+			s.Undecided(rule, key, m.Pos(fn.Pos()), "evalBlockStmt could not be evaluated for the case %s", undecided)
+		case bad != "":
+			s.Violation(rule, key, m.Pos(fn.Pos()), "evalBlockStmt does not stop after a statement that yields a %s marker: %s", marker, bad)
+		default:
+			s.OK(rule, key, m.Pos(fn.Pos()), "case evaluation: the marker alone, inside a block, inside a nested block — evaluation stops after that statement and its result is kept")
 		}
 	}
 	hc := m.PkgFunc("evaluator", "hasControlStmt")
